@@ -854,6 +854,7 @@ def j_rules(p: Project, rep: Report):
                 elif name == "accttype":
                     # <loopvar>.upper() over the same constant tuple
                     # <loopvar>.upper() where the loop variable is the one that ranges over exactly these option names
+                    v = Expander(fn).x(v)  # the upper-cased name may be hoisted into a local (`t = accttype.upper()`)
                     ok = isinstance(v, ast.Call) and isinstance(v.func, ast.Attribute) and v.func.attr == "upper" and all(k.upper() in accttypes for k in keys) and bool(keys) and keyvar is not None and text(v.func.value) == keyvar
                     rep.check("J-R1", f"{fname}:{cls}(accttype)", ok, f"accttype is {t} for options {keys}: not the option's own name upper-cased / not a valid ACCTTYPE {list(accttypes)}" if not ok else "", gloc(p, c))
                 elif name == "acctid":
